@@ -113,7 +113,7 @@ def dext (name : String) (args : List Val) (env : Env) (w : DW) : Except String 
   | "os.IsExist", [e] => .ok (.bool (Val.beq e (.str "EEXIST")), w)
   | "remove", [.str p] => .ok (.nil, { w with dirs := w.dirs.filter (· != p), log := w.log ++ ["rmdir " ++ p] })
   | "#zero", _ => .ok (.nil, w)
-  | "s.AddProc", _ => .ok (.nil, { w with log := w.log ++ ["addproc " ++ (match env.get? "s" with | some (.strct fs) => (match recGet fs "path" with | some (.str p) => p | _ => "?") | _ => "?")] })
+  | "s.AddProc", _ | "s.AddProc...", _ => .ok (.nil, { w with log := w.log ++ ["addproc " ++ (match env.get? "s" with | some (.strct fs) => (match recGet fs "path" with | some (.str p) => p | _ => "?") | _ => "?")] })
   | _, _ => .error s!"unknown call {name}"
 
 def dcfg : Cfg DW := { ext := dext, glob := fun n => if n == "os.ErrExist" then some (.str "ErrExist") else if n == "dirPerm" then some (.int 493) else none }
